@@ -649,6 +649,11 @@ Proof.
   intros v lo hi p Hp Flo Fhi Hlt Fw Hhv.
   destruct (setup lo hi p Hp Flo Fhi Hlt) as (Fl & Fh & Hlh & W & _ & E).
   pose proof (n_facts p Hp) as Hn. pose proof M_pos as HM.
+  assert (Hn1 : 1 <= 2 ^ p) by lia.
+  assert (Hn3 : Z.abs (2 ^ p - 1) < 2 ^ 53) by (change (2 ^ 53) with 9007199254740992; lia).
+  assert (H1 : (1 <= IZR (2 ^ p - 1))%R) by (apply IZR_le; lia).
+  pose proof (n1_lt_M (2 ^ p) ltac:(lia)) as HnM.
+  assert (Hnpos : (0 < IZR (2 ^ p))%R) by (apply IZR_lt; lia).
   destruct (nb_facts p Hp) as [Fn Rn].
   rewrite is_finite_equiv, sub_equiv in Fw.
   rewrite leb_equiv in Hhv. destruct (leb_ev _ _ Hhv) as (Nh & Nv & Hle).
@@ -660,22 +665,38 @@ Proof.
   set (d := Bminus mode_NE (Prim2B v) (Prim2B lo)) in *.
   assert (Hw0 : (0 < B2R w)%R) by (destruct W as [Ew | [_ H]]; [rewrite Ew in Fw; discriminate | exact H]).
   destruct (ev_fin w Fw) as [Ew Bw]. rewrite Ew in Hwd.
-  assert (Hnb : (0 < B2R (Prim2B (Z2float (2 ^ p))))%R) by (rewrite Rn; apply IZR_lt; lia).
+  assert (Hnb : (0 < B2R (Prim2B (Z2float (2 ^ p))))%R) by (rewrite Rn; exact Hnpos).
   destruct (factor_fin _ w Fn Hnb Fw Hw0) as [Ec | (Fc & Rc & _)].
   - rewrite Ec in Hs. rewrite (mul_inf_cell _ _ _ Hp Nd Hs). now rewrite Rlt_bool_true by lra.
   - set (c := Bdiv mode_NE (Prim2B (Z2float (2 ^ p))) w) in *.
     pose proof (key_bound (2 ^ p) (B2R w) Hn ltac:(lra)) as K. rewrite <- Rn, <- Rc in K.
-    assert (H1 : (1 <= IZR (2 ^ p - 1))%R) by (apply IZR_le; lia).
-    assert (Hc : (0 < B2R c)%R) by nra.
+    assert (Hc : (0 < B2R c)%R).
+    { destruct (Rlt_or_le 0 (B2R c)) as [Hc|Hc]; [exact Hc|exfalso].
+      assert (B2R w * B2R c <= 0)%R
+        by (rewrite <- (Rmult_0_r (B2R w)); apply Rmult_le_compat_l; lra).
+      lra. }
     assert (Hwd' : (ev w <= ev d)%R) by (rewrite Ew; exact Hwd).
     destruct (mul_mono c w d Fc Hc Nw Nd Hwd') as (_ & Ns & Hss).
     destruct (mul_fin w c Fw Fc ltac:(lra) (Bsign_pos c Hc)) as [_ E1].
     rewrite E1 in Hss. rewrite <- Hs in Ns, Hss.
-    rewrite gcell_ev by assumption. apply G_ge; [lia|].
+    rewrite gcell_ev by assumption. apply G_ge; [exact Hn1|].
     apply Rle_trans with (2 := Hss).
-    pose proof (n1_lt_M (2 ^ p) ltac:(lia)) as HnM.
     rewrite <- (sat_id (IZR (2 ^ p - 1))) at 1 by lra.
     apply sat_mono. rewrite <- (rnd_int (2 ^ p - 1)) at 1.
     + apply rnd_le. exact K.
-    + change (2 ^ 53) with 9007199254740992. lia.
+    + exact Hn3.
+Qed.
+
+(* ... and the hypothesis on the width is needed: when hi - lo overflows to +inf the factor
+   n / inf is 0, every scaled value is 0 (or NaN), and hi itself lands in cell 0, not n - 1 *)
+Theorem f_data2coord_above_overflow_refuted :
+  exists v lo hi p, 1 <= p <= 31 /\
+    PrimFloat.is_finite lo = true /\ PrimFloat.is_finite hi = true /\ (lo <? hi)%float = true /\
+    (hi <=? v)%float = true /\
+    PrimFloat.is_finite (hi - lo)%float = false /\
+    f_data2coord v lo hi (2 ^ p) = 0 /\ 0 <> 2 ^ p - 1.
+Proof.
+  exists 0x1.e42d130773b76p+1023%float, (-0x1.e42d130773b76p+1023)%float,
+         0x1.e42d130773b76p+1023%float, 3.
+  repeat split; try lia; try (vm_compute; reflexivity); try (vm_compute; discriminate).
 Qed.
